@@ -239,12 +239,23 @@ def _run_long(desc):
     for ui, (ubi, gen) in enumerate(ubis()):
         ubi = np.ascontiguousarray(ubi)
         P = peaks_for(gen)
-        for n in (99999, 100000, 4097):
+        for n in (99999, 100000, 4097, 8192, 12289):
             idx = (np.arange(n) * 5 + ui) % len(ALPHA)
             gv = np.ascontiguousarray(P[idx])
             for tol in (0.05, 0.25):
                 case = {"kind": "long", "ubi": ui, "n": n, "tol": tol}
                 check_case(sh, cI, indexing, ubi, gv, tol, case, do_python=False)
+                # score_and_assign on a fresh assignment returns the number of peaks within the tolerance, for any thread count
+                o0 = oracle(ubi, gv, tol)
+                if "n" in o0:
+                    for nt in (1, 2, 4, 8):
+                        cI.cimaged11_omp_set_num_threads(nt)
+                        na = cI.score_and_assign(ubi, gv, tol, np.full(n, 2.0), np.full(n, -1, np.int32), 1)
+                        ns_ = cI.score(ubi, gv, tol)
+                        if na != o0["n"] or ns_ != o0["n"]:
+                            sh.violation("score_and_assign:returned-count", dict(case, threads=nt), {"score_and_assign": int(na), "score": int(ns_), "expected": o0["n"]})
+                            break
+                    cI.cimaged11_omp_set_num_threads(1)
                 labels = ((np.arange(n) % 3) == 0).astype(np.int32) * 9
                 o = oracle(ubi, gv, 0.0, sel=labels == 9)
                 u = ubi.copy()
